@@ -128,6 +128,9 @@ func registerLike(a *ssa.Alloc) bool {
 					return false
 				}
 			case *ssa.FieldAddr:
+				if pt, isP := r.X.Type().Underlying().(*types.Pointer); isP && isSpecial(pt.Elem()) {
+					return false
+				}
 				if !ok(r, r) {
 					return false
 				}
@@ -430,6 +433,9 @@ func (ex *Exec) regPlace(fr *Frame, st *State, v ssa.Value) (*place, bool) {
 		p, ok := ex.regPlace(fr, st, v.X)
 		if !ok {
 			return nil, false
+		}
+		if isSpecial(p.T) {
+			return nil, false // library types with a hand-chosen representation have no addressable fields
 		}
 		S := p.T.Underlying().(*types.Struct)
 		lo, hi := fieldRange(S, v.Field)
@@ -851,6 +857,7 @@ func (ex *Exec) instr(fr *Frame, st *State, in ssa.Instruction) {
 		ex.curPos = in.Pos()
 	}
 	ex.curFr = fr
+	ex.curSt = st
 	switch in := in.(type) {
 	case *ssa.Alloc:
 		T := in.Type().(*types.Pointer).Elem()
@@ -1090,16 +1097,16 @@ func (ex *Exec) afterLoad(fr *Frame, st *State, v Val) {
 	for i, l := range ls {
 		if l.Sort == sInt && (l.Path == "" || strings.HasSuffix(l.Path, ".b") || strings.HasSuffix(l.Path, ".r")) {
 			// every reference in the heap was allocated before now
-			ex.assume("true", "(<= "+v.L[i]+" "+st.allocCtr+")")
+			ex.assume(st.pc, "(<= "+v.L[i]+" "+st.allocCtr+")")
 		}
 	}
 	if _, ok := v.T.Underlying().(*types.Slice); ok && len(v.L) == 4 {
-		ex.assume("true", and(nonNeg(v.L[2]), app("bvsle", v.L[2], v.L[3]), nonNeg(v.L[1]),
+		ex.assume(st.pc, and(nonNeg(v.L[2]), app("bvsle", v.L[2], v.L[3]), nonNeg(v.L[1]),
 			app("bvult", v.L[1], "#x0000100000000000"), app("bvult", v.L[3], "#x0000100000000000"),
 			implies(eq(v.L[0], "0"), eq(v.L[3], bvLit(0, 64)))))
 	}
 	if len(ls) == 1 && ls[0].Sort == sStr {
-		ex.assume("true", nonNeg(app("strlen", v.L[0])))
+		ex.assume(st.pc, nonNeg(app("strlen", v.L[0])))
 	}
 	// objects reachable through the heap satisfy their type invariant at visible states
 	// (objects this function is in the middle of changing are re-checked at its exits)
@@ -1416,8 +1423,12 @@ func (ex *Exec) unbox(T types.Type, ref string) Val {
 }
 
 func (ex *Exec) constrainLoaded(v Val) {
+	pc := "true"
+	if ex.curSt != nil {
+		pc = ex.curSt.pc
+	}
 	if _, ok := v.T.Underlying().(*types.Slice); ok && len(v.L) == 4 {
-		ex.assume("true", and(nonNeg(v.L[2]), app("bvsle", v.L[2], v.L[3]), nonNeg(v.L[1]),
+		ex.assume(pc, and(nonNeg(v.L[2]), app("bvsle", v.L[2], v.L[3]), nonNeg(v.L[1]),
 			app("bvult", v.L[1], "#x0000100000000000"), app("bvult", v.L[3], "#x0000100000000000"),
 			implies(eq(v.L[0], "0"), eq(v.L[3], bvLit(0, 64)))))
 	}
